@@ -30,6 +30,13 @@ def run(run: Run):
         specs.append({"id": f"c18-{i}", "group": grp, "members": [mem], "log_merlin": False, "log_msm": False, "with_gens": False,
                       "derived": [{"from": 0, "ops": [{"op": "scalar_add", "field": "s1", "hex": gen.hx(1)}]}],
                       "verifies": [{"mode": md, "vmembers": [gen.vmember(mem, p)]} for md in ("RecoverAndVerify", "VerifyOnly", "RecoverOnly") for p in (0, 1)]})
+    # the prover is a function of its arguments and of the bytes its RNG returns: with a stuck / constant / periodic external RNG the
+    # same call must give the same proof every time (alone, repeated, after other calls)
+    for i, (b, m, T, grp, rs) in enumerate([(4, 1, 1, "fm", {"kind": "zero"}), (2, 2, 2, "ristretto", {"kind": "const", "byte": 0x5a}),
+                                            (8, 1, 2, "fm", {"kind": "period", "bytes": "01ff"}), (2, 1, 3, "ristretto", {"kind": "const", "byte": 0})]):
+        mem = gen.mk_member(rng, b, m, cap=m, T=T, seed=(m == 1 and i % 2 == 0), rngspec=rs)
+        specs.append({"id": f"c18-rng-{i}", "group": grp, "members": [mem, copy.deepcopy(mem)], "log_merlin": False, "log_msm": False, "with_gens": False,
+                      "verifies": [{"mode": "RecoverAndVerify", "vmembers": [gen.vmember(mem, 0)]}, {"mode": "VerifyOnly", "vmembers": [gen.vmember(mem, 1)]}], "_same_proofs": True})
     # parameter objects with different generators used in one process: nothing derived from one statement's generators may be remembered
     # for the next (the Pedersen generators are public fields of the parameter object, not process-wide constants)
     for i, (b, m, T, grp, over) in enumerate([(4, 1, 1, "fm", {"h_scale": gen.hx(3)}), (2, 2, 2, "ristretto", {"gb_scale": [1, gen.hx(5)]}),
@@ -81,6 +88,14 @@ def run(run: Run):
                     k_ = next(j for j, r_ in enumerate(res) if r_ != res[0] or r_[0] != "ok")
                     run.violation(f"an identical verify_batch call returned a different result after an earlier call on the same thread ended with an error "
                                   f"(call #{idxs[k_]}: {res[k_][0][:60]} vs first: {res[0][0][:30]}; {s['group']})", {"kind": "session", "spec": sessions.strip(s), "verify": idxs[k_]})
+                    break
+        if s.get("_same_proofs"):
+            for o_, where in ((alone[i], "fresh process"), (together[i], "one process"), (together[len(specs) + i], "one process, second pass")):
+                bs = [m_.get("proof", {}).get("bytes") for m_ in o_["members"]]
+                run.bump("faulty-RNG proving calls", len(bs))
+                if len(set(bs)) != 1 or bs[0] is None:
+                    run.violation(f"two identical prove calls with the same (faulty: {s['members'][0]['rng']['kind']}) external RNG stream returned different proofs ({where}; {s['group']})",
+                                  {"kind": "session", "spec": sessions.strip(s), "where": where})
                     break
         if s.get("_must_ok"):
             for o_, where in ((alone[i], "fresh process"), (together[i], "after other calls in the same process"), (together[len(specs) + i], "second pass in the same process")):
